@@ -16,6 +16,7 @@ import (
 type c09Case struct {
 	S       vScenario `json:"s"` // book and log; malformed lines are vkRaw lines inside them
 	Silent  bool      `json:"silent"`
+	Period  []string  `json:"period,omitempty"` // global -b/-e flags: a malformed entry must be reported even in a day outside the period
 	Bin     bool      `json:"bin"`
 }
 
@@ -126,6 +127,9 @@ func checkC09(c c09Case, ctx *vCtx) *vFailure {
 	ctx.NonTrivial((len(bookBad) > 0 && bookFiller) || (len(logBad) > 0 && logFiller))
 	ctx.Labelf("k-book=%d", len(bookBad))
 	ctx.Labelf("k-log=%d", len(logBad))
+	if len(c.Period) > 0 {
+		ctx.Label("with-period")
+	}
 	run := func(args ...string) vRun {
 		inv := vInvocation{Args: args}
 		ctx.Run(1)
@@ -190,7 +194,7 @@ func checkC09(c c09Case, ctx *vCtx) *vFailure {
 		case cm.readsLog && len(logBad) > 0:
 			want, which = &logBad[0], "log"
 		}
-		r := run(f.Args(cm.args...)...)
+		r := run(append(append([]string{}, c.Period...), f.Args(cm.args...)...)...)
 		if r.Panic != "" {
 			return vFailSig("C09/"+cm.args[0]+"-"+which+"/crash-instead-of-report", "%v crashes instead of reporting the malformed line: %s", cm.args, vTrunc(r.Panic, 1200))
 		}
@@ -286,13 +290,22 @@ func genC09(t *rapid.T) c09Case {
 	}
 	c09Plant(t, &s.Book, kb, names, "pb")
 	c09Plant(t, &s.Log, kl, names, "pl")
-	return c09Case{S: s, Silent: rapid.Bool().Draw(t, "silent"), Bin: rapid.IntRange(0, 24).Draw(t, "bin") == 0}
+	c := c09Case{S: s, Silent: rapid.Bool().Draw(t, "silent"), Bin: rapid.IntRange(0, 24).Draw(t, "bin") == 0}
+	if rapid.IntRange(0, 2).Draw(t, "period") == 0 {
+		if rapid.Bool().Draw(t, "hasb") {
+			c.Period = append(c.Period, "-b", vFmtDay(rapid.IntRange(-1, 6).Draw(t, "b"), ""))
+		}
+		if rapid.Bool().Draw(t, "hase") {
+			c.Period = append(c.Period, "-e", vFmtDay(rapid.IntRange(-1, 6).Draw(t, "e"), ""))
+		}
+	}
+	return c
 }
 
 func init() { vRegister("C09", "c09.random", checkC09) }
 
 func TestVerifC09Random(t *testing.T) {
 	vRapid(t, "C09", "c09.random",
-		"well-formed books and logs (blank lines, column-0 comments, notes, LF/CRLF/mixed, every entry layout) with k in 0..5 malformed entries (no value, no blank before the value, dash without value, non-numeric value of 14 kinds) planted at random positions after the first heading of the log, the book or both; 16 commands + lint with/without --silent (1/25 of the cases through the real binary); oracle by construction: line number and raw text of each planted line; non-trivial = k>=1 and a blank/comment/note line before the first malformed line",
+		"well-formed books and logs (blank lines, column-0 comments, notes, LF/CRLF/mixed, every entry layout) with k in 0..5 malformed entries (no value, no blank before the value, dash without value, non-numeric value of 14 kinds) planted at random positions after the first heading of the log, the book or both; 16 commands (a third of the cases with a global -b/-e period that may exclude the day holding the malformed line) + lint with/without --silent (1/25 of the cases through the real binary); oracle by construction: line number and raw text of each planted line; non-trivial = k>=1 and a blank/comment/note line before the first malformed line",
 		vBudget(3200, 64000), genC09, checkC09)
 }
